@@ -57,3 +57,8 @@ Theorem pool_gen_work_only_on_active n ls j : 1 <= n ->
   let s := p_run barrier_gen (p_init n) ls in
   wact (W s j) = false -> no_work (W s j) /\ wcnt (W s j) = 0%Z.
 Proof. rewrite gen_barrier_is_proved. exact (pool_work_only_on_active n ls j). Qed.
+
+Theorem pool_gen_no_global_deadlock n ls : 1 <= n ->
+  let s := p_run barrier_gen (p_init n) ls in
+  pmain s = MPark -> pmtok s = false -> exists j c s', p_step barrier_gen s (LW j c) = Some s'.
+Proof. rewrite gen_barrier_is_proved. exact (pool_no_global_deadlock n ls). Qed.
